@@ -3,7 +3,7 @@ import ast
 import z3
 
 from . import theory as T
-from . import types as TY
+from . import tys as TY
 from .sv import (SV, NONE, MObj, Closure, BoundMethod, BuiltinRef, OutOfSubset, mk_int, mk_bool, mk_real, mk_str,
                  mk_bytes)
 from .interp import as_int_term, const_int
